@@ -89,6 +89,31 @@ def special_headers():
     return _SPECIAL
 
 
+def run_aclsizes():
+    """allow-lists of every size through the real interceptor (go/overlay/interceptor/zz_verif_aclsizes_test.go)"""
+    outp = os.path.join(V.WORK, "aclsizes.out")
+    if os.path.exists(outp):
+        os.remove(outp)
+    rc, out = V.go_test("interceptor", ["zz_verif_aclsizes_test.go"], "^TestVerifAclSizes$", env={"VERIF_OUT": outp}, timeout=600)
+    if rc != 0 or not os.path.exists(outp):
+        return "allow-list size harness failed:\n" + out[-1500:], [], 0
+    lines = [l for l in open(outp).read().split("\n") if l]
+    st = [l for l in lines if l.startswith("STATS")]
+    ncases = int(st[0].split()[1].split("=")[1]) if st else 0
+    return None, [l for l in lines if l.startswith("ACLSIZE")], ncases
+
+
+def aclsize_obligation(ck, kind, what):
+    err, lines, ncases = run_aclsizes()
+    mine = [l for l in lines if ("kind=" + kind) in l]
+    ck.obligation("%s allow-lists of every size (0..N entries, two selections each) through the real interceptor: a name is let through exactly when the list is empty or contains it "
+                  "(%d cases over both kinds)" % (what, ncases), not err and not mine, err or "; ".join(mine[:3]))
+    if err and not ck.violations:
+        ck.violation({"kind": "harness", "log": err, "broken": "allow-list size harness"}, err[:300], no_input=True)
+    elif mine and not ck.violations:
+        ck.violation({"kind": "aclsize", "acl_kind": kind, "lines": mine[:20], "verdict": "an allow-list of this size lets a name through that it does not contain (or refuses one it contains)"}, mine[0])
+
+
 def check(tier, seed):
     ck = V.Check(PROP, tier, seed)
     ck.trusted = V.std_trusted() + [
@@ -117,6 +142,7 @@ def check(tier, seed):
     if err:
         ck.violation({"kind": "harness", "log": err, "broken": "C15 model driver"}, err[:300], no_input=True)
         return ck.finish()
+    aclsize_obligation(ck, "admin", "admin-method")
     diffs, mon, denied = [], [], 0
     for i, (l, o, m, mt) in enumerate(zip(impl_in, impl, model, meta)):
         if mt is None:
@@ -176,7 +202,16 @@ def check(tier, seed):
                           "local-facing server; non-trivial = calls the policy must refuse")
 
 
+def replay_aclsize(data):
+    err, lines, _ = run_aclsizes()
+    mine = [l for l in lines if ("kind=" + data.get("acl_kind", "")) in l]
+    print(err or "\n".join(mine[:20]) or "(no disagreement on the current tree)")
+    return 1 if err or mine else 0
+
+
 def replay(data):
+    if data.get("kind") == "aclsize":
+        return replay_aclsize(data)
     if "lines" not in data:
         print("nothing to execute: " + "; ".join(data.get("broken", [])))
         return 1
